@@ -66,8 +66,13 @@ def d(t, var, memo=None, dmemo=None):
         elif name == "sqrt":
             r = mul(du, inv(mul(R.const(2), t)))
         elif name == "li2":
-            # Li2'(u) = -log(1-u)/u
-            r = mul(du, mul(neg(fn("log", add(ONE, neg(u)))), inv(u)))
+            # (Re Li2)'(u) = -log|1-u|/u   (real part for u > 1, as special.li2 returns)
+            r = mul(du, mul(neg(fn("logabs", add(ONE, neg(u)))), inv(u)))
+        elif name == "li3":
+            # (Re Li3)'(u) = Re Li2(u)/u
+            r = mul(du, mul(fn("li2", u), inv(u)))
+        elif name == "logabs":
+            r = mul(du, inv(u))
         elif name == "spence":
             # scipy.special.spence(u) = Li2(1-u); d/du = log(u)/(1-u)
             r = mul(du, mul(fn("log", u), inv(add(ONE, neg(u)))))
@@ -78,11 +83,7 @@ def d(t, var, memo=None, dmemo=None):
         else:
             raise OutOfReach(f"no derivative rule for {name}")
     elif t.op == "u":
-        # derivative of an uninterpreted application: a new uninterpreted atom per argument slot
-        r = ZERO
-        for k, a in enumerate(t.args[1:]):
-            if isinstance(a, R) and depends(a, var, dmemo):
-                r = add(r, mul(uf(f"D{k}[{t.args[0]}]", *t.args[1:]), d(a, var, memo, dmemo)))
+        raise OutOfReach(f"derivative of the uninterpreted application {t.args[0]}(...) is not available")
     else:
         raise OutOfReach(f"cannot differentiate {t.op}")
     memo[t._id] = r
